@@ -231,10 +231,10 @@ def gen_program(rng, force=None):
 
 def plan(tier, seed):
     nshards = 16 if tier == "quick" else 64
-    ninst = 6 if tier == "quick" else 24
+    ninst = 6 if tier == "quick" else 10
     out = []
     for i in range(nshards):
-        per = (2 if i % 2 == 0 else 1) if tier == "quick" else 6
+        per = (2 if i % 2 == 0 else 1) if tier == "quick" else 2
         out.append({"shard": i, "programs": per, "instances": ninst, "timeout": 3000 if tier == "quick" else 9000})
     return out
 
@@ -479,3 +479,7 @@ MANIFEST_ENTRY = {
     "text": "Each generated program (biased to random values referenced only from requirements, records, monitors and behaviours; mesh shapes/regions; visibility; mutate) is compiled, sampled and simulated in 6 (thorough 24) fresh subprocesses with identical source/options/seeds but different PYTHONHASHSEED, heap-layout perturbation, jittered fake clock in sample_checking and k in {0,5,50} earlier scenes; canonical dumps (params, every object property, iteration counts, values seen by requirements/monitors, simulation results, next random.random()/numpy draw) must be bit-identical. Held only on the programs and instances driven.",
     "note": "Trusts rt/canon.py to be address-free and the generated programs to be free of user-level global state. A difference is attributed to the requirement-dependency set order only when the dump is a function of the observed Scenario.dependencies order across all instances of that program.",
 }
+
+
+# thorough-tier floors: the quick-tier floors scaled by a conservative fraction of the size ratio of the two tiers
+MIN_COUNTERS["thorough"] = {k: int(v * 3) for k, v in MIN_COUNTERS["quick"].items()}
